@@ -915,6 +915,9 @@ def evaluate(cases, driver, want_state=True):
     for (key, case, req, impl), out in zip(reqs, outs):
         if out is None:
             continue
+        if isinstance(out, dict) and "unknown op" in str(out.get("driver_err", "")):
+            _bump(dist, "driver_unknown_op")   # the driver was built without Jaqal.UsedQubits.ops: correspondence skipped
+            continue
         corr[key]["cases"] += 1
         m = model_norm(out)
         i = impl
